@@ -48,73 +48,273 @@ Theorem C07_process_quota_before_first_insertion :
                 /\ (forall j, In j (h_unassigned (p_sol st')) <-> In j (h_unassigned (p_sol st)) \/ In j (h_required (p_sol st))).
 Proof. exact process_quota_first. Qed.
 
+(* -- "before construction", end to end (EvolutionSimulator::run + Iterative::run + Solver::solve): the quota is already reached when
+      the solver starts (it answers true at every poll): the solver returns normally, runs no generation, and the solution has no
+      tour and reports EVERY job of the plan as unassigned *)
+Theorem C07_quota_before_construction_end_to_end :
+  forall (cfg : econfig) (W : oracles) (q : quota) (N : nat),
+    oracles_ok W ->
+    c_max_gen cfg = Some N -> 1 <= N -> (forall l, c_user_term cfg = Some l -> 1 <= l) -> 1 <= c_init_ops cfg -> 1 <= c_init_size cfg ->
+    1 <= c_track cfg -> c_individuals cfg = [] ->
+    (forall t, t < 3 -> o_time W t = false /\ forall i, o_other W i t = false) ->
+    (c_max_time cfg = true -> o_init_quota W 0 = false) ->
+    (forall n, q n = true) ->
+    exists best st, evolve cfg W q = EOk best st
+                    /\ gens_run (s_tele st) = 0 /\ s_iters st = 0
+                    /\ (Inv (c_jobs cfg) best /\ h_required best = [])
+                    /\ h_routes best = []
+                    /\ (forall j, In j (c_jobs cfg) -> In j (h_unassigned best)).
+Proof.
+  intros cfg W q N HW Hc HN Hu Hops Hsize HT Hind Hquiet Hiq Hq.
+  assert (Hs : seeded cfg = []) by (unfold seeded; rewrite Hind; destruct (c_init_size cfg); reflexivity).
+  assert (Hfirst : first_check_passes cfg W).
+  { apply (first_check_positive_limit cfg W N Hc (eff_limit_pos cfg N HN Hu) Hquiet). rewrite Hs. exact Hiq. }
+  destruct (evolve_quota_before_construction cfg W q HW Hops HT Hind Hsize Hfirst Hq) as (best & st & E & Hg & Hi & Hb & Hr & Hun).
+  exists best, st. split; [exact E|]. split; [exact Hg|]. split; [exact Hi|]. split; [exact Hb|]. split; [exact Hr|exact Hun].
+Qed.
+
 (* -- "the solver still returns normally with a solution": EvolutionSimulator::run + Iterative::run + Solver::solve, for EVERY
       quota oracle, under a positive generation limit COMBINED WITH ANY of the other criteria the builder accepts (max-time,
       min-cv sample / period, target proximity: oracles; none of them may already be true at the very first check, i.e. before the
       first initial solution): Ok(best), best has every job in exactly one home and nothing pending, and so has every individual of the population;
       at most N + 1 generations; no generation starts once the quota has fired (k-th poll): at most k - 1 generations.
-      W contains the offspring oracle o_hyper of a user-supplied hyper-heuristic: ANY list per generation (hyper_ok: each handed-over
-      solution is a complete solution of the plan when the population and the built-in offspring are; e.g. every selection among them,
-      C07_hyper_selection_is_ok) and the parent selection o_parents (any list, also empty); cfg may contain a user-supplied
-      termination on statistics.generation (positive limit) *)
+      W contains the offspring oracles of a user-supplied hyper-heuristic: o_hyper (search_many) and o_diverse (diversify_many)
+      return ANY list per generation, also the empty one (hyper_ok: each handed-over solution is a complete solution of the plan when
+      the population and the built-in offspring are; e.g. every selection among them, C07_hyper_selection_is_ok), o_inner (does it run
+      the built-in search at all), the parent selection o_parents (any list, also empty), the selection phase o_exploit, the operator
+      chosen by random.weighted for the later initial slots; cfg may contain a user-supplied termination on statistics.generation
+      (positive limit), supplied initial individuals (complete solutions) and any track_population >= 1.
+      Also: the loop iterations that got past the termination / quota test (= search_many calls), the add_all calls, the
+      population.on_generation calls and the generations counted by the telemetry are the SAME number, population.on_generation saw
+      statistics.generation = 0, 1, 2, ... (no iteration is uncounted, none counted twice); metrics.generations reports the INDEX of
+      the last generation (one less than the number run); metrics.evolution holds every track_population-th generation plus the
+      last one; the supplied individuals are still in the population at the end *)
 Theorem C07_evolve_returns_valid :
   forall (cfg : econfig) (W : oracles) (q : quota) (N k : nat),
     oracles_ok W -> hyper_ok (c_jobs cfg) W ->
     c_max_gen cfg = Some N -> 1 <= N -> (forall l, c_user_term cfg = Some l -> 1 <= l) -> 1 <= c_init_ops cfg -> 1 <= c_init_size cfg ->
+    1 <= c_track cfg -> Forall (fun s => Inv (c_jobs cfg) s /\ h_required s = []) (c_individuals cfg) ->
     (forall t, t < 3 -> o_time W t = false /\ forall i, o_other W i t = false) ->
-    (c_max_time cfg = true -> o_init_quota W 0 = false) ->
+    (c_max_time cfg = true -> o_init_quota W (length (seeded cfg)) = false) ->
     exists best st, evolve cfg W q = EOk best st
                     /\ (Inv (c_jobs cfg) best /\ h_required best = [])
                     /\ In best (s_pop st)
                     /\ Forall (fun s => Inv (c_jobs cfg) s /\ h_required s = []) (s_pop st)
                     /\ gens_run (s_tele st) <= S N
                     /\ (fires_by q k -> gens_run (s_tele st) <= pred k)
-                    /\ length (t_evolution (s_tele st)) = gens_run (s_tele st).
+                    /\ t_evolution (s_tele st) = reported (c_track cfg) (gens_run (s_tele st))
+                    /\ t_metric_gens (s_tele st) = pred (gens_run (s_tele st))
+                    /\ (s_iters st = gens_run (s_tele st)
+                        /\ count_ev is_select (s_log st) = s_iters st /\ count_ev is_search (s_log st) = s_iters st
+                        /\ count_ev is_addall (s_log st) = s_iters st /\ count_ev is_popgen (s_log st) = s_iters st
+                        /\ popgen_stats (s_log st) = seq 0 (s_iters st))
+                    /\ (exists e, s_pop st = seeded cfg ++ e).
 Proof.
-  intros cfg W q N k HW HH Hc HN Hu Hops Hsize Hquiet Hiq.
-  exact (evolve_returns cfg W q HW HH N k Hc Hops Hsize
-                        (first_check_positive_limit cfg W N Hc (eff_limit_pos cfg N HN Hu) Hquiet Hiq)).
+  intros cfg W q N k HW HH Hc HN Hu Hops Hsize HT Hind Hquiet Hiq.
+  apply (evolve_returns cfg W q HW HH N k (gen_limit_cfg cfg N Hc) Hops HT Hind). unfold starts_nonempty.
+  assert (Hd : seeded cfg = [] \/ seeded cfg <> []) by (destruct (seeded cfg); [left; reflexivity|right; discriminate]).
+  destruct Hd as [Es|Hne]; [right|left; exact Hne].
+  split; [rewrite Es; cbn [length]; lia|].
+  exact (first_check_positive_limit cfg W N Hc (eff_limit_pos cfg N HN Hu) Hquiet Hiq).
+Qed.
+
+(* with supplied initial individuals (with_init_solutions; at least one is taken: initial.max_size >= 1) a solution is returned
+   WHATEVER the first check says and whatever the generation limit is - also for max_generations = 0 and for a time limit that
+   has already expired: the best of the population, which still contains every supplied individual *)
+Theorem C07_evolve_with_supplied_individuals_returns_valid :
+  forall (cfg : econfig) (W : oracles) (q : quota) (N k : nat),
+    oracles_ok W -> hyper_ok (c_jobs cfg) W ->
+    c_max_gen cfg = Some N -> 1 <= c_init_ops cfg -> 1 <= c_track cfg ->
+    Forall (fun s => Inv (c_jobs cfg) s /\ h_required s = []) (c_individuals cfg) -> seeded cfg <> [] ->
+    exists best st, evolve cfg W q = EOk best st
+                    /\ (Inv (c_jobs cfg) best /\ h_required best = [])
+                    /\ In best (s_pop st)
+                    /\ gens_run (s_tele st) <= S N
+                    /\ (fires_by q k -> gens_run (s_tele st) <= pred k)
+                    /\ (exists e, s_pop st = seeded cfg ++ e).
+Proof.
+  intros cfg W q N k HW HH Hc Hops HT Hind Hs.
+  destruct (evolve_returns cfg W q HW HH N k (gen_limit_cfg cfg N Hc) Hops HT Hind (or_introl Hs)) as (best & st & E & Hb & Hin & _ & Hg & Hq & _ & _ & _ & He).
+  exists best, st. split; [exact E|]. split; [exact Hb|]. split; [exact Hin|]. split; [exact Hg|]. split; [exact Hq|exact He].
+Qed.
+
+(* NOTHING is configured (no max-generations, max-time, min-cv, target proximity): EvolutionConfigBuilder::get_termination installs
+   max-generations 3000 + max-time 300 s; the same guarantees with N = 3000, for every quota and every oracle, also under a
+   user-supplied termination wrapped around them *)
+Theorem C07_default_limits_return_valid :
+  forall (cfg : econfig) (W : oracles) (q : quota) (k : nat),
+    oracles_ok W -> hyper_ok (c_jobs cfg) W ->
+    c_max_gen cfg = None -> c_max_time cfg = false -> c_min_cv cfg = None -> c_target cfg = false ->
+    (forall l, c_user_term cfg = Some l -> 1 <= l) -> 1 <= c_init_ops cfg -> 1 <= c_init_size cfg -> 1 <= c_track cfg ->
+    c_individuals cfg = [] -> o_time W 0 = false -> o_init_quota W 0 = false ->
+    exists best st, evolve cfg W q = EOk best st
+                    /\ (Inv (c_jobs cfg) best /\ h_required best = [])
+                    /\ In best (s_pop st)
+                    /\ Forall (fun s => Inv (c_jobs cfg) s /\ h_required s = []) (s_pop st)
+                    /\ gens_run (s_tele st) <= 3001
+                    /\ (fires_by q k -> gens_run (s_tele st) <= pred k)
+                    /\ s_iters st = gens_run (s_tele st).
+Proof.
+  intros cfg W q k HW HH H1 H2 H3 H4 Hu Hops Hsize HT Hind Ht0 Hiq.
+  assert (Hs : seeded cfg = []) by (unfold seeded; rewrite Hind; destruct (c_init_size cfg); reflexivity).
+  destruct (evolve_returns cfg W q HW HH 3000 k (gen_limit_default cfg H1 H2 H3 H4) Hops HT) as (best & st & E & Hb & Hin & Hp & Hg & Hq & _ & _ & Hcnt & _).
+  - rewrite Hind. constructor.
+  - right. rewrite Hs. split; [cbn [length]; lia|]. unfold first_check_passes, cfg_terms, terminations. rewrite Hs, H1, H2, H3, H4.
+    cbn [length app]. destruct (c_user_term cfg) as [l|] eqn:El; cbn [app is_termination est_exceeds existsb Nat.leb Nat.eqb Nat.ltb Nat.mul];
+      rewrite Ht0, Hiq; [|split; reflexivity].
+    specialize (Hu l eq_refl). destruct l as [|l']; [lia|]. split; reflexivity.
+  - exists best, st. split; [exact E|]. split; [exact Hb|]. split; [exact Hin|]. split; [exact Hp|]. split; [exact Hg|].
+    split; [exact Hq|exact (proj1 Hcnt)].
 Qed.
 
 (* every user-supplied heuristic that only SELECTS among the parents and the offspring of the built-in search (drops some or all of
    them, duplicates, reorders) satisfies hyper_ok *)
 Theorem C07_hyper_selection_is_ok :
   forall (jobs : list Z) (W : oracles),
-    (forall g pop offs s, In s (o_hyper W g pop offs) -> In s pop \/ In s offs) -> hyper_ok jobs W.
+    (forall g pop offs s, In s (o_hyper W g pop offs) -> In s pop \/ In s offs) ->
+    (forall g pop s, In s (o_diverse W g pop) -> In s pop) -> hyper_ok jobs W.
 Proof. exact hyper_selection_ok. Qed.
 
 (* the harness' CountingQuota(k) is such a quota *)
 Theorem C07_counting_quota_fires : forall k, fires_by (counting_quota (Some k)) k.
 Proof. exact counting_fires_by. Qed.
 
-(* -- the documented errors: no initial operator; max_generations = 0 (outside the statement: "a positive limit"): always
-      "cannot find any solution", for every quota and every oracle *)
+(* -- for EVERY oracle and every configuration, with no assumption at all: whenever the run reaches the end of Iterative::run,
+      the iterations that got past the termination / quota test, the select / search_many / add_all / population.on_generation
+      calls and the generations counted by Telemetry::on_generation are the same number, and population.on_generation was handed
+      statistics.generation = 0, 1, 2, ...: no iteration (in particular none whose offspring list was EMPTY) goes uncounted *)
+Theorem C07_loop_calls_are_counted :
+  forall (cfg : econfig) (W : oracles) (q : quota) (st : estate),
+    evolve_run cfg W q = Some st ->
+    s_iters st = gens_run (s_tele st)
+    /\ count_ev is_select (s_log st) = s_iters st /\ count_ev is_search (s_log st) = s_iters st
+    /\ count_ev is_addall (s_log st) = s_iters st /\ count_ev is_popgen (s_log st) = s_iters st
+    /\ popgen_stats (s_log st) = seq 0 (s_iters st).
+Proof. exact evolve_run_counted. Qed.
+
+(* nothing handed to the population is lost by the loops: the supplied individuals are a prefix of the final population *)
+Theorem C07_population_keeps_supplied_individuals :
+  forall (cfg : econfig) (W : oracles) (q : quota) (st : estate),
+    evolve_run cfg W q = Some st -> exists e, s_pop st = seeded cfg ++ e.
+Proof. exact evolve_run_keeps_seeded. Qed.
+
+(* -- the documented errors: no initial operator; max_generations = 0 without supplied individuals (outside the statement: "a
+      positive limit"): always "cannot find any solution", for every quota and every oracle; track_population = 0 panics
+      (`generation % track_population`, telemetry.rs) *)
 Theorem C07_no_initial_operator_error :
   forall cfg W q, c_init_ops cfg = 0 -> evolve cfg W q = EErr ErrNoInitialMethods.
 Proof. exact evolve_no_initial_operator. Qed.
 
 Theorem C07_zero_generations_error :
-  forall cfg W q, c_max_gen cfg = Some 0 -> 1 <= c_init_ops cfg -> evolve cfg W q = EErr ErrNoSolution.
+  forall cfg W q, c_max_gen cfg = Some 0 -> 1 <= c_init_ops cfg -> 1 <= c_track cfg -> seeded cfg = [] -> evolve cfg W q = EErr ErrNoSolution.
 Proof. exact evolve_zero_generations. Qed.
+
+Theorem C07_track_population_zero_panics :
+  forall cfg W q, 1 <= c_init_ops cfg -> c_track cfg = 0 -> evolve cfg W q = EPanic.
+Proof. exact evolve_track_zero_panics. Qed.
+
+(* "cannot find any solution" (Solver::solve) is returned exactly when the population is empty at the end of Iterative::run *)
+Theorem C07_no_solution_iff_population_empty :
+  forall cfg W q,
+    evolve cfg W q = EErr ErrNoSolution <->
+    1 <= c_init_ops cfg /\ 1 <= c_track cfg /\ exists st, evolve_run cfg W q = Some st /\ s_pop st = [].
+Proof. exact evolve_no_solution_iff. Qed.
+
+(* -- clause "a positive time limit is hit => still returns a solution" is REFUTED on the faithful model (finding C07-F2):
+      only a time limit is configured and it has NOT expired (MaxTime::is_termination = false for three more checks), but more than
+      initial.quota (5 %) of it has passed since the clock was started at EvolutionConfigBuilder::build when the run begins
+      (o_init_quota 0 = true): the initial phase builds nothing, Iterative::run spins over an empty population until the limit is
+      hit and Solver::solve returns Err("cannot find any solution") *)
+Theorem C07_time_limit_returns_solution_refuted :
+  exists (cfg : econfig) (W : oracles) (q : quota),
+    c_max_gen cfg = None /\ c_max_time cfg = true /\ 1 <= c_init_ops cfg /\ 1 <= c_init_size cfg /\ 1 <= c_track cfg
+    /\ c_individuals cfg = [] /\ (forall n, q n = false)
+    /\ fst (is_termination (cfg_terms cfg) 0 (o_time W) (o_other W) 0) = false
+    /\ o_init_quota W 0 = true
+    /\ evolve cfg W q = EErr ErrNoSolution.
+Proof.
+  exists (mkC [0%Z; 1%Z] 1 None true None false None 4 4 9 [] 1),
+         (loop_oracles [false; false; false; true] [true] [] [] [] [] [] [] []), (counting_quota None).
+  split; [reflexivity|]. split; [reflexivity|]. split; [cbn; lia|]. split; [cbn; lia|]. split; [cbn; lia|]. split; [reflexivity|].
+  split; [intros n; reflexivity|]. split; [vm_compute; reflexivity|]. split; [reflexivity|]. vm_compute. reflexivity.
+Qed.
+
+(* -- clause "a positive time limit is hit => returns normally with a solution" (no generation limit configured): PARTIAL.
+      It holds for EVERY quota / operator / offspring oracle when the population Iterative::run starts from is not empty: an
+      individual was supplied, or the first check of the initial phase passes (the limit not yet reached and not yet initial.quota
+      = 5 % of it gone when the run starts) - without that hypothesis the statement fails: C07_time_limit_returns_solution_refuted,
+      finding C07-F2.  T0 = the number of clock readings after which MaxTime answers true (the clock does not go back); every test
+      of Iterative::run reads the clock, so at most T0 generations are run; c_fuel is only the fuel of the model's recursion: the
+      result is the same for every fuel above T0, i.e. the loop ENDS.  No generation starts once the quota has fired *)
+Theorem C07_time_limit_returns_valid_partial :
+  forall (cfg : econfig) (W : oracles) (q : quota) (T0 k : nat),
+    oracles_ok W -> hyper_ok (c_jobs cfg) W ->
+    c_max_gen cfg = None -> c_user_term cfg = None -> c_max_time cfg = true ->
+    1 <= c_init_ops cfg -> 1 <= c_track cfg ->
+    Forall (fun s => Inv (c_jobs cfg) s /\ h_required s = []) (c_individuals cfg) ->
+    (seeded cfg <> [] \/ (length (seeded cfg) < c_init_size cfg /\ first_check_passes cfg W)) ->
+    (forall t, T0 <= t -> o_time W t = true) -> T0 < c_fuel cfg ->
+    exists best st, evolve cfg W q = EOk best st
+                    /\ (Inv (c_jobs cfg) best /\ h_required best = [])
+                    /\ In best (s_pop st)
+                    /\ Forall (fun s => Inv (c_jobs cfg) s /\ h_required s = []) (s_pop st)
+                    /\ gens_run (s_tele st) <= T0
+                    /\ (fires_by q k -> gens_run (s_tele st) <= pred k)
+                    /\ s_iters st = gens_run (s_tele st).
+Proof.
+  intros cfg W q T0 k HW HH Hc Hu Ht Hops HT Hind Hstart Hclock Hfuel.
+  destruct (evolve_time_returns cfg W q HW HH T0 k Hc Hu Ht Hops HT Hind Hstart Hclock Hfuel)
+    as (best & st & E & Hb & Hin & Hp & Hg & Hq & Hcnt).
+  exists best, st. split; [exact E|]. split; [exact Hb|]. split; [exact Hin|]. split; [exact Hp|]. split; [exact Hg|].
+  split; [exact Hq|exact (proj1 Hcnt)].
+Qed.
+
+(* its hypotheses are satisfiable: the clock answers true from its 3rd reading on, the first check passes *)
+Theorem C07_time_limit_nonvacuous :
+  exists (cfg : econfig) (W : oracles) (q : quota) (best : hsol) (st : estate),
+    oracles_ok W /\ hyper_ok (c_jobs cfg) W
+    /\ c_max_gen cfg = None /\ c_user_term cfg = None /\ c_max_time cfg = true /\ 1 <= c_init_ops cfg /\ 1 <= c_track cfg
+    /\ c_individuals cfg = []
+    /\ (length (seeded cfg) < c_init_size cfg /\ first_check_passes cfg W)
+    /\ (forall t, 3 <= t -> o_time W t = true) /\ 3 < c_fuel cfg
+    /\ evolve cfg W q = EOk best st /\ gens_run (s_tele st) = 1.
+Proof.
+  exists (mkC [0%Z; 1%Z] 1 None true None false None 2 2 9 [] 1),
+         (mkO (fun t => 3 <=? t) (fun _ _ => false) (fun _ => false) (fun _ => 0) (fun _ _ _ _ => EFailure None false false)
+              (fun _ _ => []) (fun _ => true) (fun _ _ => []) (fun _ => true) (fun _ _ _ => []) (fun _ _ _ _ => EFailure None false false)
+              (fun _ _ => 0) (fun _ => 0) (fun _ _ offs => offs)),
+         (counting_quota None).
+  eexists _, _.
+  split; [split; intros; intros i s; exact I|].
+  split; [apply hyper_selection_ok; [intros g pop offs s Hs; right; exact Hs|intros g pop s []]|].
+  split; [reflexivity|]. split; [reflexivity|]. split; [reflexivity|]. split; [cbn; lia|]. split; [cbn; lia|]. split; [reflexivity|].
+  split; [split; [cbn; lia|split; reflexivity]|].
+  split; [intros t Ht; cbn [o_time]; apply Nat.leb_le; exact Ht|]. split; [cbn; lia|].
+  split; vm_compute; reflexivity.
+Qed.
 
 (* -- clause "It never runs more generations than the configured maximum":
       FULL statement  generations_run <= N  is REFUTED on the faithful model: with nothing else stopping the run (quota never
       fires, no time limit hit, no other configured criterion fires) exactly N + 1 generations are run for every N >= 1 (statistics.generation is the 0-based index
-      of the generation just finished and MaxGeneration tests `generation >= limit`); metrics.generations reports N *)
+      of the generation just finished and MaxGeneration tests `generation >= limit`); metrics.generations reports N; the loop body
+      is entered N + 1 times *)
 Theorem C07_generations_run_exact :
   forall (cfg : econfig) (W : oracles) (q : quota) (N : nat),
     oracles_ok W -> hyper_ok (c_jobs cfg) W ->
-    c_max_gen cfg = Some N -> 1 <= N -> c_user_term cfg = None -> 1 <= c_init_ops cfg -> 1 <= c_init_size cfg ->
+    c_max_gen cfg = Some N -> 1 <= N -> c_user_term cfg = None -> 1 <= c_init_ops cfg -> 1 <= c_init_size cfg -> 1 <= c_track cfg ->
+    c_individuals cfg = [] ->
     (c_max_time cfg = true -> o_init_quota W 0 = false) ->
     (forall n, q n = false) -> (forall t, o_time W t = false) -> (forall i t, o_other W i t = false) ->
-    exists best st, evolve cfg W q = EOk best st /\ gens_run (s_tele st) = N + 1 /\ t_metric_gens (s_tele st) = N.
+    exists best st, evolve cfg W q = EOk best st /\ gens_run (s_tele st) = N + 1 /\ t_metric_gens (s_tele st) = N /\ s_iters st = N + 1.
 Proof.
-  intros cfg W q N HW HH Hc HN Hu Hops Hsize Ht Hq Htm Hot.
+  intros cfg W q N HW HH Hc HN Hu Hops Hsize HT Hind Ht Hq Htm Hot.
   assert (HL : eff_limit cfg N = N) by (unfold eff_limit; rewrite Hu; reflexivity).
-  destruct (evolve_generations_exact cfg W q HW HH N Hc) as (best & st & E & Hg & Hm);
-    [rewrite HL; exact HN|exact Hops|exact Hsize| |exact Hq|exact Htm|exact Hot|].
-  - apply (first_check_positive_limit cfg W N Hc); [rewrite HL; exact HN| |exact Ht]. intros t _. split; [apply Htm|intros i; apply Hot].
-  - exists best, st. rewrite HL in Hg, Hm. split; [exact E|]. split; [lia|exact Hm].
+  assert (Hs : seeded cfg = []) by (unfold seeded; rewrite Hind; destruct (c_init_size cfg); reflexivity).
+  destruct (evolve_generations_exact cfg W q HW HH N Hc) as (best & st & E & Hg & Hm & Hi);
+    [rewrite HL; exact HN|exact Hops|exact HT|rewrite Hind; constructor| |exact Hq|exact Htm|exact Hot|].
+  - right. rewrite Hs. split; [cbn [length]; lia|].
+    apply (first_check_positive_limit cfg W N Hc); [rewrite HL; exact HN| |rewrite Hs; exact Ht]. intros t _. split; [apply Htm|intros i; apply Hot].
+  - exists best, st. rewrite HL in Hg, Hm, Hi. split; [exact E|]. split; [lia|]. split; [exact Hm|lia].
 Qed.
 
 (* the same with a USER-SUPPLIED termination criterion that is reached only through the statistics (`statistics().generation >= L`,
@@ -125,55 +325,65 @@ Theorem C07_generations_run_exact_user_termination :
   forall (cfg : econfig) (W : oracles) (q : quota) (N L : nat),
     oracles_ok W -> hyper_ok (c_jobs cfg) W ->
     c_max_gen cfg = Some N -> 1 <= N -> c_user_term cfg = Some L -> 1 <= L -> 1 <= c_init_ops cfg -> 1 <= c_init_size cfg ->
+    1 <= c_track cfg -> c_individuals cfg = [] ->
     (c_max_time cfg = true -> o_init_quota W 0 = false) ->
     (forall n, q n = false) -> (forall t, o_time W t = false) -> (forall i t, o_other W i t = false) ->
-    exists best st, evolve cfg W q = EOk best st /\ gens_run (s_tele st) = Nat.min N L + 1 /\ t_metric_gens (s_tele st) = Nat.min N L.
+    exists best st, evolve cfg W q = EOk best st /\ gens_run (s_tele st) = Nat.min N L + 1 /\ t_metric_gens (s_tele st) = Nat.min N L
+                    /\ s_iters st = Nat.min N L + 1.
 Proof.
-  intros cfg W q N L HW HH Hc HN Hu HL1 Hops Hsize Ht Hq Htm Hot.
+  intros cfg W q N L HW HH Hc HN Hu HL1 Hops Hsize HT Hind Ht Hq Htm Hot.
   assert (HL : eff_limit cfg N = Nat.min N L) by (unfold eff_limit; rewrite Hu; reflexivity).
-  destruct (evolve_generations_exact cfg W q HW HH N Hc) as (best & st & E & Hg & Hm);
-    [rewrite HL; lia|exact Hops|exact Hsize| |exact Hq|exact Htm|exact Hot|].
-  - apply (first_check_positive_limit cfg W N Hc); [rewrite HL; lia| |exact Ht]. intros t _. split; [apply Htm|intros i; apply Hot].
-  - exists best, st. rewrite HL in Hg, Hm. split; [exact E|]. split; [lia|exact Hm].
+  assert (Hs : seeded cfg = []) by (unfold seeded; rewrite Hind; destruct (c_init_size cfg); reflexivity).
+  destruct (evolve_generations_exact cfg W q HW HH N Hc) as (best & st & E & Hg & Hm & Hi);
+    [rewrite HL; lia|exact Hops|exact HT|rewrite Hind; constructor| |exact Hq|exact Htm|exact Hot|].
+  - right. rewrite Hs. split; [cbn [length]; lia|].
+    apply (first_check_positive_limit cfg W N Hc); [rewrite HL; lia| |rewrite Hs; exact Ht]. intros t _. split; [apply Htm|intros i; apply Hot].
+  - exists best, st. rewrite HL in Hg, Hm, Hi. split; [exact E|]. split; [lia|]. split; [exact Hm|lia].
 Qed.
 
 (* one iteration of Iterative::run, for EVERY offspring oracle and every parent selection: it is COUNTED - the number of generations
    run grows by one and statistics.generation (what MaxGeneration and a user-supplied criterion read) becomes the index of the
-   iteration just finished - also when the heuristic handed over nothing, in which case the population stays as it was *)
+   iteration just finished - also when the heuristic handed over nothing (an EMPTY offspring list from search_many and
+   diversify_many), in which case the population stays exactly as it was: nothing is lost and the counter does not stall *)
 Theorem C07_every_iteration_is_counted :
   forall (cfg : econfig) (W : oracles) (q : quota) (st : estate),
-    oracles_ok W ->
+    oracles_ok W -> hyper_ok (c_jobs cfg) W ->
     Forall (fun s => Inv (c_jobs cfg) s /\ h_required s = []) (s_pop st) ->
     exists st', generation cfg W q st = Some st'
                 /\ gens_run (s_tele st') = S (gens_run (s_tele st))
                 /\ t_stat_gen (s_tele st') = gens_run (s_tele st)
-                /\ (exists offs, s_pop st' = s_pop st ++ o_hyper W (gens_run (s_tele st)) (s_pop st) offs)
-                /\ ((forall offs, o_hyper W (gens_run (s_tele st)) (s_pop st) offs = []) -> s_pop st' = s_pop st).
-Proof. intros cfg W q st HW. exact (generation_counted cfg W q HW st). Qed.
+                /\ s_iters st' = S (s_iters st)
+                /\ (exists handed, s_pop st' = s_pop st ++ handed)
+                /\ ((forall offs, o_hyper W (s_iters st) (s_pop st) offs = []) ->
+                    (o_exploit W (s_iters st) = true \/ o_diverse W (s_iters st) (s_pop st) = []) -> s_pop st' = s_pop st).
+Proof. intros cfg W q st HW HH. exact (generation_counted cfg W q HW HH st). Qed.
 
 Theorem C07_generations_bounded_refuted :
   exists (cfg : econfig) (W : oracles) (q : quota) (N : nat) (best : hsol) (st : estate),
     c_max_gen cfg = Some N /\ 1 <= N /\ evolve cfg W q = EOk best st /\ N < gens_run (s_tele st).
 Proof.
-  exists (mkC [0%Z; 1%Z] 1 (Some 1) false None false None 4 4 0), (skip_oracles 0 []), (counting_quota None), 1.
+  exists (mkC [0%Z; 1%Z] 1 (Some 1) false None false None 4 4 0 [] 1), (skip_oracles 0 []), (counting_quota None), 1.
   eexists _, _. split; [reflexivity|]. split; [lia|]. split; [vm_compute; reflexivity|]. vm_compute. lia.
 Qed.
 
-(* the strongest true bound: never more than N + 1 generations, for every quota / clock / operator oracle, for EVERY offspring
-   oracle of a user-supplied hyper-heuristic (o_hyper: any list per generation, also the empty one) and every parent selection
-   (o_parents: also none), with or without a user-supplied termination on the statistics, and for every
+(* the strongest true bound: never more than N + 1 generations (and never more than N + 1 entries into the loop body), for every
+   quota / clock / operator oracle, for EVERY offspring oracle of a user-supplied hyper-heuristic (o_hyper, o_diverse: any list per
+   generation, also the empty one) and every parent selection (o_parents: also none), with or without a user-supplied termination
+   on the statistics, with or without supplied individuals, for every track_population >= 1 and for every
    combination of max_generations = N with max-time, min-cv (sample or period, any size) and target proximity *)
 Theorem C07_generations_bounded_partial :
   forall (cfg : econfig) (W : oracles) (q : quota) (N : nat),
     oracles_ok W -> hyper_ok (c_jobs cfg) W ->
     c_max_gen cfg = Some N -> 1 <= N -> (forall l, c_user_term cfg = Some l -> 1 <= l) -> 1 <= c_init_ops cfg -> 1 <= c_init_size cfg ->
+    1 <= c_track cfg -> Forall (fun s => Inv (c_jobs cfg) s /\ h_required s = []) (c_individuals cfg) ->
     (forall t, t < 3 -> o_time W t = false /\ forall i, o_other W i t = false) ->
-    (c_max_time cfg = true -> o_init_quota W 0 = false) ->
-    exists best st, evolve cfg W q = EOk best st /\ gens_run (s_tele st) <= N + 1.
+    (c_max_time cfg = true -> o_init_quota W (length (seeded cfg)) = false) ->
+    exists best st, evolve cfg W q = EOk best st /\ gens_run (s_tele st) <= N + 1 /\ s_iters st <= N + 1.
 Proof.
-  intros cfg W q N HW HH Hc HN Hu Hops Hsize Hquiet Hiq.
-  destruct (C07_evolve_returns_valid cfg W q N 0 HW HH Hc HN Hu Hops Hsize Hquiet Hiq) as (best & st & E & _ & _ & _ & Hg & _).
-  exists best, st. split; [exact E|lia].
+  intros cfg W q N HW HH Hc HN Hu Hops Hsize HT Hind Hquiet Hiq.
+  destruct (C07_evolve_returns_valid cfg W q N 0 HW HH Hc HN Hu Hops Hsize HT Hind Hquiet Hiq)
+    as (best & st & E & _ & _ & _ & Hg & _ & _ & _ & (Hi & _) & _).
+  exists best, st. split; [exact E|]. split; lia.
 Qed.
 
 (* the limit handed to MaxGeneration is the configured max_generations whatever else is configured (get_termination), and the
@@ -207,6 +417,71 @@ Theorem C07_decompose_inner_quota_reached :
     (forall n, q n = true) -> 1 <= repeat -> fst (decompose_inner repeat q polls inner done) = S done.
 Proof. exact decompose_inner_reached. Qed.
 
+(* -- telemetry: with track_population = 1 (what the harness and vrp-cli's default use) metrics.evolution has one entry per generation *)
+Theorem C07_evolution_entries_track_one : forall n, reported 1 n = seq 0 n.
+Proof. exact reported_one. Qed.
+
+(* every tracked generation number is the index of a generation that was run *)
+Theorem C07_evolution_entries_are_generations :
+  forall T n g, 1 <= n -> In g (reported T n) -> g < n.
+Proof.
+  intros T n g Hn H. unfold reported in H. apply in_app_or in H. destruct H as [H|H]; [exact (tracked_lt T n g H)|].
+  destruct (pred n mod T =? 0); [destruct H|destruct H as [<-|[]]; lia].
+Qed.
+
+(* -- the real Greedy population (population/greedy.rs): ranked().next() after it received `l` is the FIRST individual of minimal
+      fitness; add_all never replaces the best known individual by a worse one and an EMPTY hand-over leaves it unchanged *)
+Theorem C07_greedy_best_is_first_minimum :
+  forall (A : Type) (fit : A -> nat) (d : A) (l : list A),
+    l <> [] ->
+    greedy_best fit l < length l
+    /\ (forall x, In x l -> fit (nth (greedy_best fit l) l d) <= fit x)
+    /\ (forall i, i < greedy_best fit l -> fit (nth (greedy_best fit l) l d) < fit (nth i l d)).
+Proof. intros A fit d l. exact (greedy_best_spec fit d l). Qed.
+
+Theorem C07_greedy_add_all_never_loses_best :
+  forall (A : Type) (fit : A -> nat) (xs : list A) (b : A),
+    (exists b' imp, greedy_add_all fit (Some b) xs = (Some b', imp)
+                    /\ fit b' <= fit b /\ (b' = b \/ In b' xs) /\ (forall x, In x xs -> fit b' <= fit x))
+    /\ greedy_add_all fit (Some b) [] = (Some b, false).
+Proof. intros A fit xs b. split; [exact (greedy_add_all_spec fit xs b)|reflexivity]. Qed.
+
+(* -- EvolutionSimulator::run, initial phase: the first operators.len() free slots use the operators in order, the later ones the
+      operator random.weighted chose; before Iterative::run starts at most initial.max_size individuals were handed to the
+      population and no generation was counted *)
+Theorem C07_initial_operator_order :
+  forall cfg W idx,
+    (idx < c_init_ops cfg -> init_operator cfg W idx = idx)
+    /\ (c_init_ops cfg <= idx -> init_operator cfg W idx = o_weighted W idx).
+Proof. intros cfg W idx. split; [apply init_operator_in_order|apply init_operator_weighted]. Qed.
+
+Theorem C07_initial_phase_bounds :
+  forall (cfg : econfig) (W : oracles) (q : quota),
+    oracles_ok W -> Forall (fun s => Inv (c_jobs cfg) s /\ h_required s = []) (c_individuals cfg) ->
+    exists st1, initial (c_init_size cfg - length (seeded cfg)) (length (seeded cfg)) cfg W q (seed cfg estate0) = Some st1
+                /\ Forall (fun s => Inv (c_jobs cfg) s /\ h_required s = []) (s_pop st1)
+                /\ s_tele st1 = tele0 /\ s_iters st1 = 0
+                /\ length (s_pop st1) <= c_init_size cfg
+                /\ (exists l, s_pop st1 = seeded cfg ++ l).
+Proof.
+  intros cfg W q HW Hind. destruct (before_loop cfg W q HW Hind) as (st1 & E & Hp & Ht & Hi & Hl & He & _).
+  exists st1. repeat split; assumption.
+Qed.
+
+(* -- "inside any search step": the quota a nested search step polls (create_environment_with_custom_quota / CompositeTimeQuota):
+      once the outer quota has run out every poll answers true whatever the step's own time limit; the composite never answers
+      true on its own; it polls the outer quota at most once per poll and not at all once its own clock is up *)
+Theorem C07_nested_quota_sees_outer_quota :
+  forall (limit time_up : bool) (inner : quota) (p k : nat),
+    fires_by inner k -> k <= S p -> fst (custom_poll (custom_quota limit true) time_up inner p) = true.
+Proof. exact custom_poll_outer_fired. Qed.
+
+Theorem C07_nested_quota_sound :
+  forall (c : cquota) (time_up : bool) (inner : quota) (p : nat),
+    let r := custom_poll c time_up inner p in
+    (fst r = true -> time_up = true \/ inner p = true) /\ p <= snd r <= S p /\ (c = CComposite -> time_up = true -> snd r = p).
+Proof. exact custom_poll_sound. Qed.
+
 (* -- non-vacuity: the hypotheses are satisfiable (an evaluator that always inserts the first pending job; the oracles used by
       the correspondence), and a concrete interruption between two insertions: 3 jobs, quota true from its 2nd poll on =>
       1 job inserted, 2 reported unassigned, 2 polls *)
@@ -214,7 +489,7 @@ Theorem C07_nonvacuous :
   ev_ok (fun _ s => match h_required s with j :: _ => ESuccess 0 j | [] => EFailure None false false end)
   /\ oracles_ok (skip_oracles 3 [2; 5])
   /\ hyper_ok [0%Z; 1%Z; 2%Z] (skip_oracles 3 [2; 5])
-  /\ hyper_ok [] (loop_oracles [2; 0; 1] [1; 0; 2] [0; 1; 3] [0; 2; 0])
+  /\ hyper_ok [] (loop_oracles [] [] [1] [2; 0; 1] [1; 0; 2] [true; false] [0; 1; 3] [false; true; false] [0; 2; 1])
   /\ Inv [0%Z; 1%Z; 2%Z] (init [0%Z; 1%Z; 2%Z])
   /\ run_process 3 (Some 2) = (1, 2, 2)
   /\ run_process 3 (Some 0) = (0, 3, 1)
@@ -223,18 +498,26 @@ Theorem C07_nonvacuous :
   /\ run_evolve 2 8 [6; 18; 4] None = (0, 3, 2, 3, 40)
   /\ run_evolve_cfg 2 true (Some (true, 40)) true 8 [6; 18; 4] None = (0, 3, 2, 3, 40)
   (* a scripted hyper-heuristic that hands over NOTHING in generations 0 and 2 (and everything three times in generation 1), one
-     parent selected: max_generations = 3 still runs 4 iterations, every one of them counted, 1 + 3 individuals *)
-  /\ run_loop (Some 3) None 1 1 0 0 [0; 0; 0; 0] [1; 1; 1; 1] [0; 3; 0; 1] [0; 0; 0; 0] None = (0, 4, 3, [0; 1; 2; 3], 5, 5)
+     parent selected: max_generations = 3 still runs 4 iterations, every one of them counted, 1 + 3 + 1 individuals *)
+  /\ fst (snd (run_loop (Some 3) None false 1 1 0 1 0 0 [] [] [] [0; 0; 0; 0] [1; 1; 1; 1] [] [0; 3; 0; 1] [] [] None))
+     = (4, 4, 3, [0; 1; 2; 3], 5, 5)
   (* a population that selects no parent at all and a heuristic that hands over nothing: still counted, the run ends *)
-  /\ run_loop (Some 2) None 1 1 0 0 [] [] [0; 0; 0] [] None = (0, 3, 2, [0; 1; 2], 4, 1)
+  /\ fst (snd (run_loop (Some 2) None false 1 1 0 1 0 0 [] [] [] [] [] [] [0; 0; 0] [] [] None)) = (3, 3, 2, [0; 1; 2], 4, 1)
   (* a user-supplied termination `statistics().generation >= 1` under max_generations = 5: 2 iterations *)
-  /\ run_loop (Some 5) (Some 1) 1 1 0 0 [] [1; 1] [0; 2] [] None = (0, 2, 1, [0; 1], 3, 3).
+  /\ fst (snd (run_loop (Some 5) (Some 1) false 1 1 0 1 0 0 [] [] [] [] [1; 1] [] [0; 2] [] [] None)) = (2, 2, 1, [0; 1], 3, 3)
+  (* track_population = 3, one supplied individual, 4 slots: generations 0..3 run, entries 0 and 3; with max_generations = 4 the
+     last generation 4 gets its entry from on_result *)
+  /\ fst (snd (run_loop (Some 3) None false 2 5 1 3 0 0 [] [] [0; 0; 1; 1; 0] [] [1; 1; 1; 1] [] [] [] [] None)) = (4, 4, 3, [0; 3], 5, 9)
+  /\ fst (snd (run_loop (Some 4) None false 2 5 1 3 0 0 [] [] [0; 0; 1; 1; 0] [] [1; 1; 1; 1; 1] [] [] [] [] None)) = (5, 5, 4, [0; 3; 4], 6, 10)
+  /\ run_greedy [50; 2; 2; 25; 1; 9; 1] = 4.
 Proof.
   split; [|split; [|split; [|split; [|split; [apply homes_init|repeat split; vm_compute; reflexivity]]]]].
   - intros i s. unfold eres_ok. cbv beta. destruct (h_required s) eqn:E; [exact I|left; reflexivity].
   - split; intros; intros i s; exact I.
-  - apply hyper_selection_ok. intros g pop offs s Hs. right. exact Hs.
-  - apply hyper_selection_ok. intros g pop offs s Hs. cbn [loop_oracles o_hyper] in Hs. apply in_app_or in Hs. destruct Hs as [Hs|Hs].
-    + right. apply in_flat_map in Hs. destruct Hs as (x & Hx & Hr). apply repeat_spec in Hr. subst s. exact Hx.
-    + left. destruct pop as [|h t]; [contradiction|]. apply repeat_spec in Hs. subst s. left. reflexivity.
+  - apply hyper_selection_ok; [intros g pop offs s Hs; right; exact Hs|intros g pop s []].
+  - apply hyper_selection_ok.
+    + intros g pop offs s Hs. cbn [loop_oracles o_hyper] in Hs. right.
+      apply in_flat_map in Hs. destruct Hs as (x & Hx & Hr). apply repeat_spec in Hr. subst s. exact Hx.
+    + intros g pop s Hs. cbn [loop_oracles o_diverse] in Hs. destruct pop as [|h t]; [contradiction|].
+      apply repeat_spec in Hs. subst s. left. reflexivity.
 Qed.
